@@ -70,7 +70,8 @@ fn main() {
             });
             let check = v["case"]["check"].as_str().unwrap_or("?").to_string();
             let want = v["clause"].as_str().unwrap_or("").to_string();
-            let got = judge_with_history(&v["case"]);
+            // always in a fresh process (no state of this one involved), with a wall-clock limit
+            let got = report::judge_in_fresh_process(&serde_json::json!({"cases": [v["case"].clone()]}));
             let property = v["property"].as_str().unwrap_or(&check).to_string();
             match got.iter().find(|(c, _)| *c == want) {
                 Some((c, d)) => {
